@@ -39,6 +39,10 @@ func (c compileResult) Verdict() string {
 
 // compileTexts parses every text afresh (compilation mutates parse trees) and
 // compiles the set.  order gives the insertion order of the trees map.
+// compileSkipUnknown: compile with the option that tolerates imports of modules that are not supplied
+// (set by C11 for the sets that need it; false everywhere else).
+var compileSkipUnknown bool
+
 func compileTexts(texts map[string]string, order []string, feats []string, filter compile.SchemaFilter, wantDump bool) (res compileResult) {
 	if order == nil {
 		for n := range texts {
@@ -67,7 +71,7 @@ func compileTexts(texts map[string]string, order []string, feats []string, filte
 	}
 	var ms schema.ModelSet
 	var err error
-	pan, msg, stack := core.Guard(func() { ms, err = compile.CompileParseTrees(nil, trees, fc, false, filter) })
+	pan, msg, stack := core.Guard(func() { ms, err = compile.CompileParseTrees(nil, trees, fc, compileSkipUnknown, filter) })
 	if pan {
 		res.Panic, res.Stack = msg, stack
 		return
